@@ -191,3 +191,33 @@ contract(OPP, name='order-of-matchers', props=['C13'], returns='MatchedOperandSe
              # without one, the statement is matched by the operand sets or not at all
              f'implies(not {NO_OPS} and not {LISTED} and self._operand_sets_model is None, result is None)'],
          modifies=[], allocates=True, no_frame_check=True)
+
+
+# ---- the order in which an instruction's variants are tried is the order of the ISA definition ---------------------------
+# (the generator walks `instruction.variants` front to back; this is where that list is built: the instruction's own
+#  configuration first when it has a byte code, then the entries of `variants:` in the order they are listed)
+INS = 'bespokeasm.assembler.model.instruction'
+contract(INS + ':InstructionVariant.__init__', name='abs:InstructionVariant.__init__', props=['C13'], assumed=True,
+         reason='construction of one variant from its own configuration entry (operand parser construction and '
+                'validation are kernels of C19); only the entry it keeps is stated',
+         params={'instruction_variant_config': 'cfg', 'operand_set_collection': 'OperandSetCollection'},
+         may_raise={'SystemExit': 'True'}, ensures=['self._variant_config == instruction_variant_config'],
+         modifies=[], no_frame_check=True)
+
+ROOT = 'ite("bytecode" in instruction_config, 1, 0)'
+NVAR = 'ite("variants" in instruction_config, cfg_len(instruction_config["variants"]), 0)'
+contract(INS + ':Instruction.__init__', name='variant-order', props=['C13'],
+         params={'instruction_config': 'cfg', 'operand_set_collection': 'OperandSetCollection'},
+         may_raise={'SystemExit': 'True'},
+         ensures=[f'len(self._variants) == {ROOT} + {NVAR}',
+                  'implies("bytecode" in instruction_config, elems(self._variants)[0]._variant_config == instruction_config)',
+                  f'forall(lambda j: implies(0 <= j and j < {NVAR}, elems(self._variants)[{ROOT} + j]._variant_config'
+                  ' == cfg_item(instruction_config["variants"], j)))'],
+         modifies=['self._mnemonic', 'self._default_endian', 'self._registers', 'self._config', 'self._variants'],
+         allocates=True, no_frame_check=True,
+         loops={'0': dict(idx='i', allocates=True, modifies=['self._variants[*]'],
+                          inv=[f'len(self._variants) == {ROOT} + i', 'i <= cfg_len(instruction_config["variants"])', 'fresh(self._variants)', 'self._config == instruction_config',
+                               'implies("bytecode" in instruction_config,'
+                               ' elems(self._variants)[0]._variant_config == instruction_config)',
+                               f'forall(lambda j: implies(0 <= j and j < i, elems(self._variants)[{ROOT} + j]._variant_config'
+                               ' == cfg_item(instruction_config["variants"], j)))'])})
